@@ -23,14 +23,14 @@ m = {
     'setup_cmd': './setup.sh',
     'hooks': {
         'guard': 'cfg(kani)',
-        'enable': 'no source change in /repo: each check copies the working tree to a scratch dir and applies an add-only overlay there (harness modules appended under #[cfg(kani)], kani contract attributes under #[cfg_attr(kani, ..)], a [patch.crates-io] no-op tracing shim); Verus units are cut out of /repo sources on every run',
+        'enable': 'no source change in /repo: each check copies the working tree to a scratch dir and applies an add-only overlay there (harness modules appended under #[cfg(kani)], kani contract attributes under #[cfg_attr(kani, ..)], a [patch.crates-io] no-op tracing shim); Verus units are cut out of /repo sources on every run (declared expression rewrites listed in the evidence); the native stand-in and the replay drivers are dropped into tests/ of a scratch copy',
         'baseline_off_cmd': 'cd /repo && cargo test --workspace --no-fail-fast --offline',
         'source_commits': [],
         'add_only': True,
     },
     'engines': [
         {'name': 'contracts', 'path': '/verif/check', 'serves_properties': sorted(registry.PROPS.keys()),
-         'kind_free_text': 'contract-based deductive verification of the real code: Verus (requires/ensures/invariants on functions extracted verbatim each run) and Kani function contracts / loop-free full-domain harnesses compiled inside the real crate; bounded Kani harnesses are labelled bounded'},
+         'kind_free_text': 'contract-based deductive verification of the real code: Verus (requires/ensures/invariants on functions extracted verbatim each run) and Kani function contracts / loop-free full-domain harnesses compiled inside the real crate; bounded Kani harnesses are labelled bounded; one bounded native enumeration stand-in (C05, EmbeddedWal::scan_records converse direction) is labelled as such and never counted as proved'},
     ],
     'checks': checks,
     'notes': 'exit 2 (no VIOLATION line) means undecided: anchor lost, unsupported construct, timeout or memory cap. fix: commits in /repo: 19588ca (C05), 564bc2c (C30/C22), 72f8a48 (C35), 7ea9072 (C37; re-lands 5192d72 after revert 377b627), all recorded in known_findings.txt as fixed. ./check selftest runs the mutants and the seeded changes. See DESIGN.md.',
